@@ -1,7 +1,8 @@
 (* C12 -- formatting never changes what a program means and never loses comments. *)
 From Coq Require Import List NArith Bool.
 Import ListNotations.
-From Mos Require Import model.Format Gen.FmtRules model.FormatTokens proofs.FormatProofs.
+From Mos Require Import model.Format Gen.FmtRules model.FormatTokens model.FormatCmd spec.FormatSpec
+  proofs.FormatProofs proofs.FormatTokensProofs proofs.FormatCmdProofs.
 
 (* Line assembly (join_chunks), for ALL chunk lists and ALL options: the non-whitespace characters of the output are
    exactly those of the chunk texts, in the same order -- no token or comment character is lost, invented or reordered
@@ -12,6 +13,66 @@ Theorem C12_join_preserves : forall cs o, nonempty_chunks cs ->
 Proof. exact join_preserves. Qed.
 Print Assumptions C12_join_preserves.
 
-(* non-vacuity / the guard is needed: with an empty last chunk the pending line is never flushed *)
+(* A comment chunk that is followed by a newline chunk (every `//` comment is: format_tokens emits the newline trivia right
+   behind it) is the last thing on its output line: the lines split, at a line boundary, into those that hold everything
+   up to and including the comment and those that hold everything behind it.  No later text is ever put behind a line
+   comment (it would be commented out). *)
+Theorem C12_line_comment_ends_line : forall pre c ind post o,
+  c_ty c = Some Comment -> c_str c <> [] -> nonempty_chunks post ->
+  exists l1 l2, join_lines (pre ++ c :: mkChunk None ind [NL] :: post) o = l1 ++ l2 /\
+    nows (concat l1) = nows (chunks_text (pre ++ [c])) /\ nows (concat l2) = nows (chunks_text post).
+Proof. exact line_comment_ends_line. Qed.
+Print Assumptions C12_line_comment_ends_line.
+
+(* Token layer (format_tokens / format_token / format_block over the whole Token enum and expression grammar), for ALL
+   token lists and options: the comment chunks carry every comment of the file, in source order (compared on their
+   non-whitespace characters: a comment chunk may start with the pending space of spc_if_next) -- unless a comment sits
+   in front of the `{` of a directive / label / import / `.define` block (known finding F-C12a).  wf_tokens are the
+   parser invariants (a bare Expression token only as a config value; an else block only with its else tag); the check
+   verifies them on every AST the real parser produces. *)
+Theorem C12_comments_in_order : forall o ts, wf_tokens ts = true -> Known_lbrace_trivia ts = false ->
+  nows (concat (chunk_comments (format_chunks o ts))) = nows (concat (all_comments ts)).
+Proof. exact comments_in_order. Qed.
+Print Assumptions C12_comments_in_order.
+
+(* F-C12a on the model: `.if 1 // c` NEWLINE `{ nop }` -- the file has one comment, the formatter emits none *)
+Theorem C12_lbrace_trivia_dropped_refuted : exists o ts,
+  wf_tokens ts = true /\ Known_lbrace_trivia ts = true /\
+  all_comments ts = [[47; 47; 32; 99]%N] /\ chunk_comments (format_chunks o ts) = [].
+Proof. exact lbrace_trivia_dropped. Qed.
+Print Assumptions C12_lbrace_trivia_dropped_refuted.
+
+(* Two statements are never emitted back to back (repaired defect: `lda foo lda bar` became `lda foolda bar`): between a
+   statement and the next one -- unless the first is a label standing in front of its statement, which join_chunks
+   separates by a space -- format_tokens emits a chunk that contains a line break.  Holds for the source as it is now
+   (Gen.FmtRules.separates_same_line_statements, read off format_tokens on every run). *)
+Theorem C12_statements_separated : forall p t st,
+  is_blockless_label p = false -> is_eof_token t = false -> kind_of t <> KError ->
+  exists gap, f_chunks (newline_before (Some p) t (fmt_otrivia (token_trivia t) st)) = gap ++ f_chunks st /\
+              existsb (fun c => contains_nl (c_str c)) gap = true.
+Proof. exact statements_separated. Qed.
+Print Assumptions C12_statements_separated.
+
+(* `mos format` (model of format_command): any parse diagnostic, in whichever file of the project => no file is opened
+   for writing and the command fails *)
+Theorem C12_format_cmd_atomic : forall (file : Type) line_ending can_open (r : parse_result file) o,
+  pr_diagnostics file r <> 0 -> format_command file line_ending can_open r o = ([], false).
+Proof. exact format_cmd_atomic. Qed.
+Print Assumptions C12_format_cmd_atomic.
+
+(* ... and without diagnostics every file of the project, in order, is truncated and rewritten with exactly the
+   formatter's text for that file; nothing else is touched *)
+Theorem C12_format_cmd_writes : forall (file : Type) line_ending can_open (r : parse_result file) o,
+  pr_diagnostics file r = 0 -> forallb (fun ft => can_open (fst ft)) (pr_files file r) = true ->
+  format_command file line_ending can_open r o =
+    (flat_map (fun ft : file * list token =>
+                 [OpenTruncate file (fst ft); WriteAll file (fst ft) (replace_nl line_ending (format o (snd ft)))]) (pr_files file r), true).
+Proof. exact format_cmd_writes. Qed.
+Print Assumptions C12_format_cmd_writes.
+
+(* non-vacuity *)
 Example C12_join_preserves_guard_needed : exists cs o, nows (join_chunks cs o) <> nows (chunks_text cs).
 Proof. exact join_preserves_needs_nonempty. Qed.
+Example C12_comments_example :
+  wf_tokens lbrace_witness = true /\ Known_lbrace_trivia (tl lbrace_witness) = false.
+Proof. vm_compute. split; reflexivity. Qed.
